@@ -126,6 +126,12 @@ func (p *parser) parse() (lookups gtab.LookupList) {
 		case isIdentifier(item, "GPOS4"):
 			l := p.readGpos4()
 			lookups = append(lookups, l)
+		case isIdentifier(item, "GPOS7"):
+			l := p.readSeqCtx(7)
+			lookups = append(lookups, l)
+		case isIdentifier(item, "GPOS8"):
+			l := p.readChainedSeqCtx(8)
+			lookups = append(lookups, l)
 		default:
 			p.fatal("unexpected %s", item)
 		}
